@@ -262,3 +262,59 @@ def trusted_base(thm):
             "translator tools/genconsts (size markers)", "extraction ExtrOcamlBasic only; ocaml/conv.ml, ocaml/tl2/schema_io2.ml, ocaml/drv_tl2.ml",
             "Go harness harness/go/gendrv (ops_tl2.go); comparison in lib/checks",
             "axioms: " + (", ".join(thm["axioms"]) if thm["axioms"] else "none (every theorem closed under the global context)")]
+
+
+# --------------------------------------------------------------------------- schema evolution (C13)
+
+def evolve_schema(rng, text):
+    """A copy of a random schema with fields appended to some structs / union variants
+    (what a newer version of the schema may do without breaking TL2 readers).  Returns
+    (new text, number of declarations changed)."""
+    import re
+    out = []
+    changed = 0
+    for line in text.split("\n"):
+        m = re.match(r"^(rs\.[tu]\w+)((?: \{\w+:#\})*)((?: \S+)*) = (rs\.\S+(?: \w+)*);$", line)
+        if not m or rng.random() < 0.4:
+            out.append(line)
+            continue
+        name, tmpl, fields, res = m.groups()
+        toks = fields.split()
+        if toks and not all(":" in t for t in toks):      # typedef-bodied declaration: one anonymous field
+            out.append(line)
+            continue
+        if name.startswith("rs.u") and not toks:            # keep enums enums
+            out.append(line)
+            continue
+        nats = [t.split(":")[0] for t in toks if t.endswith(":#") and "?" not in t]
+        add = []
+        for k in range(rng.randrange(1, 4)):
+            t = rng.choice(["int", "string", "long", "double", "Bool", "(vector int)", "(Maybe long)", "(tuple int 2)", "(dictionary int)", "true"])
+            if nats and rng.random() < 0.4:
+                add.append(f"g{k}:{rng.choice(nats)}.{rng.choice([4, 6, 7, 30])}?{t}")
+            elif t != "true":
+                add.append(f"g{k}:{t}")
+        if not add:
+            out.append(line)
+            continue
+        changed += 1
+        out.append(f"{name}{tmpl}{fields} {' '.join(add)} = {res};")
+    return "\n".join(out), changed
+
+
+def evolution_specs(ctx, n):
+    """n (old, new) pairs of random schemas as unit specs named evo<i>_old / evo<i>_new"""
+    specs = []
+    for i in range(n):
+        for _ in range(20):
+            g = randschema.Gen(ctx.rng, ntypes=ctx.rng.choice([4, 6, 8]))
+            old = g.text()
+            new, changed = evolve_schema(ctx.rng, old)
+            if changed:
+                break
+        for tag, text in (("old", old), ("new", new)):
+            d = Path(ctx.scratch) / f"evo{i}_{tag}"
+            d.mkdir(exist_ok=True)
+            (d / "s.tl").write_text(text)
+            specs.append((f"evo{i}_{tag}", [d / "s.tl"], ["--tl2WhiteList=*"], "*", True))
+    return specs
